@@ -100,7 +100,9 @@ auto a_count(Case const& c) -> std::string
     std::string e;
     {
         Scope sc;
-        e = num(etl::count(at<K>(A, 0), at<K>(A, len(c)), v)) + "," + num(etl::count_if(at<K>(A, 0), at<K>(A, len(c)), Pred{c.pred}));
+        auto r1 = etl::count(at<K>(A, 0), at<K>(A, len(c)), v); // one call per statement: single-pass traversals must not overlap
+        auto r2 = etl::count_if(at<K>(A, 0), at<K>(A, len(c)), Pred{c.pred});
+        e       = num(r1) + "," + num(r2);
     }
     return verdict(e + " " + ren(A), s + " " + ren(a));
 }
@@ -114,8 +116,10 @@ auto a_find(Case const& c) -> std::string
     std::string e;
     {
         Scope sc;
-        e = num(off(A, etl::find(at<K>(A, 0), at<K>(A, len(c)), v))) + "," + num(off(A, etl::find_if(at<K>(A, 0), at<K>(A, len(c)), Pred{c.pred}))) + ","
-          + num(off(A, etl::find_if_not(at<K>(A, 0), at<K>(A, len(c)), Pred{c.pred})));
+        auto r1 = off(A, etl::find(at<K>(A, 0), at<K>(A, len(c)), v));
+        auto r2 = off(A, etl::find_if(at<K>(A, 0), at<K>(A, len(c)), Pred{c.pred}));
+        auto r3 = off(A, etl::find_if_not(at<K>(A, 0), at<K>(A, len(c)), Pred{c.pred}));
+        e       = num(r1) + "," + num(r2) + "," + num(r3);
     }
     return verdict(e + " " + ren(A), s + " " + ren(a));
 }
@@ -134,7 +138,7 @@ auto a_mismatch3(Case const& c) -> std::string
     std::string e;
     {
         Scope sc;
-        auto re = c.eq == 0 ? etl::mismatch(at<K>(A, 0), at<K>(A, len(c)), at<K>(B, 0)) : etl::mismatch(at<K>(A, 0), at<K>(A, len(c)), at<K>(B, 0), Eq{c.eq});
+        auto re = c.eq == 0 ? etl::mismatch(at<K>(A, 0), at<K>(A, len(c)), at2<K>(B, 0)) : etl::mismatch(at<K>(A, 0), at<K>(A, len(c)), at2<K>(B, 0), Eq{c.eq});
         e       = num(off(A, re.first)) + "," + num(off(B, re.second));
     }
     return verdict(e, s);
@@ -151,7 +155,7 @@ auto a_mismatch4(Case const& c) -> std::string
     std::string e;
     {
         Scope sc;
-        auto re = c.eq == 0 ? etl::mismatch(at<K>(A, 0), at<K>(A, len(c)), at<K>(B, 0), at<K>(B, lenb(c))) : etl::mismatch(at<K>(A, 0), at<K>(A, len(c)), at<K>(B, 0), at<K>(B, lenb(c)), Eq{c.eq});
+        auto re = c.eq == 0 ? etl::mismatch(at<K>(A, 0), at<K>(A, len(c)), at2<K>(B, 0), at2<K>(B, lenb(c))) : etl::mismatch(at<K>(A, 0), at<K>(A, len(c)), at2<K>(B, 0), at2<K>(B, lenb(c)), Eq{c.eq});
         e       = num(off(A, re.first)) + "," + num(off(B, re.second));
     }
     return verdict(e, s);
@@ -168,7 +172,7 @@ auto a_equal3(Case const& c) -> std::string
     std::string e;
     {
         Scope sc;
-        e = bs(c.eq == 0 ? etl::equal(at<K>(A, 0), at<K>(A, len(c)), at<K>(B, 0)) : etl::equal(at<K>(A, 0), at<K>(A, len(c)), at<K>(B, 0), Eq{c.eq}));
+        e = bs(c.eq == 0 ? etl::equal(at<K>(A, 0), at<K>(A, len(c)), at2<K>(B, 0)) : etl::equal(at<K>(A, 0), at<K>(A, len(c)), at2<K>(B, 0), Eq{c.eq}));
     }
     return verdict(e, s);
 }
@@ -183,7 +187,7 @@ auto a_equal4(Case const& c) -> std::string
     std::string e;
     {
         Scope sc;
-        e = bs(c.eq == 0 ? etl::equal(at<K>(A, 0), at<K>(A, len(c)), at<K>(B, 0), at<K>(B, lenb(c))) : etl::equal(at<K>(A, 0), at<K>(A, len(c)), at<K>(B, 0), at<K>(B, lenb(c)), Eq{c.eq}));
+        e = bs(c.eq == 0 ? etl::equal(at<K>(A, 0), at<K>(A, len(c)), at2<K>(B, 0), at2<K>(B, lenb(c))) : etl::equal(at<K>(A, 0), at<K>(A, len(c)), at2<K>(B, 0), at2<K>(B, lenb(c)), Eq{c.eq}));
     }
     return verdict(e, s);
 }
@@ -201,7 +205,7 @@ auto a_is_perm3(Case const& c) -> std::string
     std::string e;
     {
         Scope sc;
-        e = bs(etl::is_permutation(at<K>(A, 0), at<K>(A, len(c)), at<K>(B, 0)));
+        e = bs(etl::is_permutation(at<K>(A, 0), at<K>(A, len(c)), at2<K>(B, 0)));
     }
     return verdict(e, s);
 }
@@ -216,7 +220,7 @@ auto a_is_perm4(Case const& c) -> std::string
     std::string e;
     {
         Scope sc;
-        e = bs(etl::is_permutation(at<K>(A, 0), at<K>(A, len(c)), at<K>(B, 0), at<K>(B, lenb(c))));
+        e = bs(etl::is_permutation(at<K>(A, 0), at<K>(A, len(c)), at2<K>(B, 0), at2<K>(B, lenb(c))));
     }
     return verdict(e, s);
 }
@@ -233,12 +237,12 @@ auto a_find_end(Case const& c) -> std::string
     std::string e;
     {
         Scope sc;
-        e = num(off(A, c.eq == 0 ? etl::find_end(at<K>(A, 0), at<K>(A, len(c)), at<K>(B, 0), at<K>(B, lenb(c))) : etl::find_end(at<K>(A, 0), at<K>(A, len(c)), at<K>(B, 0), at<K>(B, lenb(c)), Eq{c.eq})));
+        e = num(off(A, c.eq == 0 ? etl::find_end(at<K>(A, 0), at<K>(A, len(c)), at2<K>(B, 0), at2<K>(B, lenb(c))) : etl::find_end(at<K>(A, 0), at<K>(A, len(c)), at2<K>(B, 0), at2<K>(B, lenb(c)), Eq{c.eq})));
     }
     return verdict(e, s);
 }
-template <typename K, typename K2>
-auto a_find_first_of_impl(Case const& c) -> std::string
+template <typename K>
+auto a_find_first_of(Case const& c) -> std::string
 {
     V a = mk(c.a, 0);
     V b = mk(c.b, 100);
@@ -248,18 +252,9 @@ auto a_find_first_of_impl(Case const& c) -> std::string
     std::string e;
     {
         Scope sc;
-        e = num(off(A, c.eq == 0 ? etl::find_first_of(at<K>(A, 0), at<K>(A, len(c)), at<K2>(B, 0), at<K2>(B, lenb(c))) : etl::find_first_of(at<K>(A, 0), at<K>(A, len(c)), at<K2>(B, 0), at<K2>(B, lenb(c)), Eq{c.eq})));
+        e = num(off(A, c.eq == 0 ? etl::find_first_of(at<K>(A, 0), at<K>(A, len(c)), at2<K>(B, 0), at2<K>(B, lenb(c))) : etl::find_first_of(at<K>(A, 0), at<K>(A, len(c)), at2<K>(B, 0), at2<K>(B, lenb(c)), Eq{c.eq})));
     }
     return verdict(e, s);
-}
-template <typename K>
-auto a_find_first_of(Case const& c) -> std::string
-{
-    if constexpr (K::id == 'I') {
-        return a_find_first_of_impl<KI, KF>(c); // input first range, forward second range
-    } else {
-        return a_find_first_of_impl<K, K>(c);
-    }
 }
 template <typename K>
 auto a_search(Case const& c) -> std::string
@@ -272,7 +267,7 @@ auto a_search(Case const& c) -> std::string
     std::string e;
     {
         Scope sc;
-        e = num(off(A, c.eq == 0 ? etl::search(at<K>(A, 0), at<K>(A, len(c)), at<K>(B, 0), at<K>(B, lenb(c))) : etl::search(at<K>(A, 0), at<K>(A, len(c)), at<K>(B, 0), at<K>(B, lenb(c)), Eq{c.eq})));
+        e = num(off(A, c.eq == 0 ? etl::search(at<K>(A, 0), at<K>(A, len(c)), at2<K>(B, 0), at2<K>(B, lenb(c))) : etl::search(at<K>(A, 0), at<K>(A, len(c)), at2<K>(B, 0), at2<K>(B, lenb(c)), Eq{c.eq})));
     }
     return verdict(e, s);
 }
@@ -291,12 +286,12 @@ auto a_search_searcher(Case const& c) -> std::string
     {
         Scope sc;
         if (c.eq == 0) {
-            auto srch = etl::default_searcher(at<K>(B, 0), at<K>(B, lenb(c)));
+            auto srch = etl::default_searcher(at2<K>(B, 0), at2<K>(B, lenb(c)));
             e         = num(off(A, etl::search(at<K>(A, 0), at<K>(A, len(c)), srch)));
             auto pe   = srch(at<K>(A, 0), at<K>(A, len(c)));
             e += " pair=" + num(off(A, pe.first)) + "," + num(off(A, pe.second));
         } else {
-            auto srch = etl::default_searcher(at<K>(B, 0), at<K>(B, lenb(c)), Eq{c.eq});
+            auto srch = etl::default_searcher(at2<K>(B, 0), at2<K>(B, lenb(c)), Eq{c.eq});
             e         = num(off(A, etl::search(at<K>(A, 0), at<K>(A, len(c)), srch)));
             auto pe   = srch(at<K>(A, 0), at<K>(A, len(c)));
             e += " pair=" + num(off(A, pe.first)) + "," + num(off(A, pe.second));
@@ -345,7 +340,7 @@ auto a_lex(Case const& c) -> std::string
     std::string e;
     {
         Scope sc;
-        e = bs(c.cmp == 0 ? etl::lexicographical_compare(at<K>(A, 0), at<K>(A, len(c)), at<K>(B, 0), at<K>(B, lenb(c))) : etl::lexicographical_compare(at<K>(A, 0), at<K>(A, len(c)), at<K>(B, 0), at<K>(B, lenb(c)), Cmp{c.cmp}));
+        e = bs(c.cmp == 0 ? etl::lexicographical_compare(at<K>(A, 0), at<K>(A, len(c)), at2<K>(B, 0), at2<K>(B, lenb(c))) : etl::lexicographical_compare(at<K>(A, 0), at<K>(A, len(c)), at2<K>(B, 0), at2<K>(B, lenb(c)), Cmp{c.cmp}));
     }
     return verdict(e, s);
 }
@@ -367,22 +362,57 @@ auto table() -> std::vector<Entry> const&
         C06_REG(a_find, "find_find_if_find_if_not", D_VAL | D_PRED, KI),
         C06_REG(a_mismatch3, "mismatch3", D_BSAME | D_EQ, KP),
         C06_REG(a_mismatch3, "mismatch3", D_BSAME | D_EQ, KI),
+        C06_REG(a_mismatch3, "mismatch3", D_BSAME | D_EQ, Kpi),
+        C06_REG(a_mismatch3, "mismatch3", D_BSAME | D_EQ, Kip),
+        C06_REG(a_mismatch3, "mismatch3", D_BSAME | D_EQ, Kfi),
+        C06_REG(a_mismatch3, "mismatch3", D_BSAME | D_EQ, Kpf),
+        C06_REG(a_mismatch3, "mismatch3", D_BSAME | D_EQ, Kbp),
         C06_REG(a_mismatch4, "mismatch4", D_B | D_EQ, KP),
         C06_REG(a_mismatch4, "mismatch4", D_B | D_EQ, KI),
+        C06_REG(a_mismatch4, "mismatch4", D_B | D_EQ, Kpi),
+        C06_REG(a_mismatch4, "mismatch4", D_B | D_EQ, Kip),
+        C06_REG(a_mismatch4, "mismatch4", D_B | D_EQ, Kfi),
+        C06_REG(a_mismatch4, "mismatch4", D_B | D_EQ, Kpf),
+        C06_REG(a_mismatch4, "mismatch4", D_B | D_EQ, Kbp),
         C06_REG(a_equal3, "equal3", D_BSAME | D_EQ, KP),
         C06_REG(a_equal3, "equal3", D_BSAME | D_EQ, KI),
+        C06_REG(a_equal3, "equal3", D_BSAME | D_EQ, Kpi),
+        C06_REG(a_equal3, "equal3", D_BSAME | D_EQ, Kip),
+        C06_REG(a_equal3, "equal3", D_BSAME | D_EQ, Kfi),
+        C06_REG(a_equal3, "equal3", D_BSAME | D_EQ, Kpf),
+        C06_REG(a_equal3, "equal3", D_BSAME | D_EQ, Kbp),
         C06_REG(a_equal4, "equal4", D_B | D_EQ, KP),
         C06_REG(a_equal4, "equal4", D_B | D_EQ, KI),
+        C06_REG(a_equal4, "equal4", D_B | D_EQ, Kpi),
+        C06_REG(a_equal4, "equal4", D_B | D_EQ, Kip),
+        C06_REG(a_equal4, "equal4", D_B | D_EQ, Kfi),
+        C06_REG(a_equal4, "equal4", D_B | D_EQ, Kpf),
+        C06_REG(a_equal4, "equal4", D_B | D_EQ, Kbp),
         C06_REG(a_is_perm3, "is_permutation3", D_BSAME, KP),
         C06_REG(a_is_perm3, "is_permutation3", D_BSAME, KF),
+        C06_REG(a_is_perm3, "is_permutation3", D_BSAME, Kpf),
+        C06_REG(a_is_perm3, "is_permutation3", D_BSAME, Kbp),
+        C06_REG(a_is_perm3, "is_permutation3", D_BSAME, Kfp),
         C06_REG(a_is_perm4, "is_permutation4", D_B, KP),
         C06_REG(a_is_perm4, "is_permutation4", D_B, KF),
+        C06_REG(a_is_perm4, "is_permutation4", D_B, Kpf),
+        C06_REG(a_is_perm4, "is_permutation4", D_B, Kbp),
+        C06_REG(a_is_perm4, "is_permutation4", D_B, Kfp),
         C06_REG(a_find_end, "find_end", D_B | D_EQ, KP),
         C06_REG(a_find_end, "find_end", D_B | D_EQ, KF),
+        C06_REG(a_find_end, "find_end", D_B | D_EQ, Kpf),
+        C06_REG(a_find_end, "find_end", D_B | D_EQ, Kbp),
+        C06_REG(a_find_end, "find_end", D_B | D_EQ, Kfp),
         C06_REG(a_find_first_of, "find_first_of", D_B | D_EQ, KP),
-        C06_REG(a_find_first_of, "find_first_of", D_B | D_EQ, KI),
+        C06_REG(a_find_first_of, "find_first_of", D_B | D_EQ, Kif),
+        C06_REG(a_find_first_of, "find_first_of", D_B | D_EQ, Kpf),
+        C06_REG(a_find_first_of, "find_first_of", D_B | D_EQ, Kbp),
+        C06_REG(a_find_first_of, "find_first_of", D_B | D_EQ, Kip),
         C06_REG(a_search, "search", D_B | D_EQ, KP),
         C06_REG(a_search, "search", D_B | D_EQ, KF),
+        C06_REG(a_search, "search", D_B | D_EQ, Kpf),
+        C06_REG(a_search, "search", D_B | D_EQ, Kbp),
+        C06_REG(a_search, "search", D_B | D_EQ, Kfp),
         C06_REG(a_search_searcher, "search_searcher", D_B | D_EQ, KP),
         C06_REG(a_search_searcher, "search_searcher", D_B | D_EQ, KF),
         C06_REG(a_adjacent_find, "adjacent_find", D_EQ, KP),
@@ -390,6 +420,11 @@ auto table() -> std::vector<Entry> const&
         C06_REG(a_search_n, "search_n", D_N | D_VAL | D_EQ, KP),
         C06_REG(a_lex, "lexicographical_compare", D_B | D_CMP, KP),
         C06_REG(a_lex, "lexicographical_compare", D_B | D_CMP, KI),
+        C06_REG(a_lex, "lexicographical_compare", D_B | D_CMP, Kpi),
+        C06_REG(a_lex, "lexicographical_compare", D_B | D_CMP, Kip),
+        C06_REG(a_lex, "lexicographical_compare", D_B | D_CMP, Kfi),
+        C06_REG(a_lex, "lexicographical_compare", D_B | D_CMP, Kpf),
+        C06_REG(a_lex, "lexicographical_compare", D_B | D_CMP, Kbp),
     };
     return t;
 }
